@@ -6,6 +6,34 @@ import os
 ROOT = os.path.dirname(os.path.dirname(os.path.abspath(__file__)))
 
 CLAIMED = {
+    "C07": dict(
+        category="model_checking",
+        technique="TLA+ model of the driver (compiler + generator processes + bounded pipes; TLC invariants, deadlock "
+                  "freedom, termination) + TLC-enumerated scenarios run with the real binary and fake generators + TLC "
+                  "trace validation of each observed run against the declarative expectation",
+        text="Driver.tla models main.rs step by step (gate, spawn, blocking pipe writes, collect, judge, exit) next to "
+             "generators that run concurrently; TLC checks GeneratorsOnlyAfterCleanCompile, DryRunMeansNoGenerators, "
+             "WarningsDoNotBlock, ExitNonZeroIffError and that every terminal state equals DriverSpec!Expected. The 720 "
+             "scenarios (9 compile outcome classes x file holding the defect x --dry-run x -A All x -O x 5 generator "
+             "lists) are run with the real binary; Trace_Driver validates generators started, request captured, files, "
+             "exit status iff error diagnostics, stderr content for each run.",
+        note="One template program per outcome class. The binary is observed at the process boundary only.",
+        design_ref="5 (C07), 4 (Driver)"),
+    "C18": dict(
+        category="fault_enumeration",
+        technique="TLA+ driver model over the generator behaviour catalogue (TLC: invariants, deadlock freedom, liveness) "
+                  "+ exhaustive fault assignment for 1-2 (3) generators x output-directory states executed with the "
+                  "real binary and fault-injecting fake generators + TLC trace validation of every run",
+        text="Every assignment of 19 generator behaviours (missing, not executable, exit 1/255, SIGKILL, SIGSEGV, stderr, "
+             "exit before reading, truncated / invalid bool / UTF-8 / level / huge size / empty reply, ok with 0-2 files) "
+             "to 1-2 generators x 5 output directory states (1 900 runs; thorough: 3 generators) and a valid reply cut at "
+             "every byte are executed; Trace_Driver demands for each run: exit status, one error naming each failing "
+             "generator and only those, all startable generators invoked with the identical request + own arguments, "
+             "files only from decoded replies, identical file keeps inode/mtime, no crash, <= 20 s. The model itself is "
+             "checked for deadlock freedom and termination with bounded pipes.",
+        note="Assumes generators read the whole request before replying (the model exhibits the deadlock otherwise). "
+             "'Not writable' is a path below a regular file because the sandbox runs as root.",
+        design_ref="5 (C18), 4 (Driver)"),
     "C05": dict(
         category="model_checking",
         technique="TLA+ model of the cycle search (TLC: safety invariants + termination under fairness, all graphs <= 3/4 "
